@@ -157,6 +157,21 @@ class Run:
         return s.check() == z3.unsat
 
     def truth(self, v):
+        if isinstance(v, Ref):
+            o = self.deref(v)
+            if isinstance(o, Obj):
+                ci = self.repo.classes.get(o.cls)
+                if ci is not None and 'NamedTuple' in ci.bases:
+                    return len(o.fields) > 0        # a namedtuple is truthy when it has fields
+                return True
+            if isinstance(o, ListO):
+                return len(o.items) > 0
+            if isinstance(o, MapO):
+                return self.branch(T.alen(o.keys) > 0)
+            if isinstance(o, SeqO):
+                return self.branch(_seq_len(SeqV(o.skind, o.term)) > 0)
+            if isinstance(o, SymListO):
+                return self.branch(o.length > 0)
         return self.branch(to_bool_term(v))
 
     def emit(self, kind, goal, detail='', props=None, extra_hyps=(), meta=None):
@@ -562,6 +577,8 @@ class Run:
         v = self.ev(n.operand)
         op = type(n.op).__name__
         if op == 'Not':
+            if isinstance(v, Ref):
+                return BoolV(not self.truth(v))
             return BoolV(z3.Not(to_bool_term(v)))
         return self.eng.lib.unop(self, op, v)
 
